@@ -11,6 +11,7 @@ fn main() {
         #[cfg(not(feature = "sym"))]
         "prove_component" => components::prove(&mut ctx, &args[2..]),
         "verify_labels" => protocol::run_verify_labels(&mut ctx, &args[2..]),
+        "decode_probe" => protocol::run_decode_probe(&mut ctx, &args[2..]),
         "verify" => protocol::run_verify(&mut ctx, &args[2..]),
         "kernels" => kernels::run(&mut ctx, &args[2..]),
         "kzg" => kernels::run_kzg(&mut ctx, &args[2..]),
